@@ -20,18 +20,18 @@ CLAIMED = {
    note="Well-formed JSON-RPC only; a server silent for 60 s counts as inconclusive; debug build of abasic-lsp.",
    design="4/C20"),
  "C06": dict(
-   technique="differential property testing of two implementations (static analyzer vs interpreter) over generated well-typed, ill-typed and text-damaged lines and programs, with forced start lines and variable environments",
+   technique="differential property testing of two implementations (static analyzer vs interpreter) over generated well-typed, ill-typed and text-damaged lines and programs (word deletion / duplication / swap / truncation, `$` toggles, fractional numerals, substitution by cells, calls of wrong arity or kind, punctuation, keywords; one case in three in shuffled file order), with forced start lines and variable environments",
    text="Direction 1: every generated program the analyzer accepts is executed by RUN and from each of its lines under three variable environments and mixed replies; no execution may end in a syntax error, TYPE MISMATCH or UNDEF'D STATEMENT. Direction 2: every analyzer-rejected line without conditionals, control transfers, INPUT or user functions is run alone and must fail. Two confirmed disagreements that have no small repair are recorded as known findings under narrow keys.",
    note="Branch coverage is by start line x environment, not exhaustive over conditions; the straight-line test is decided conservatively on the text.",
    design="4/C06"),
  "C07": dict(
    technique="metamorphic property testing over break schedules: generated programs x exhaustive/random subsets of turn boundaries x generated inspection statements, interrupted run compared with the uninterrupted run of the same implementation",
-   text="For generated programs with INPUT/STOP and reply scripts, the run interrupted by host breaks at a chosen subset of turn boundaries (all subsets for runs of <= 7 calls), with side-effect-free inspection statements executed at each breakpoint (including failing ones and failing user-function calls) and resumed with CONT, must produce the same prints, notices, consumed replies and final outcome as the uninterrupted run. A second family checks that an assignment entered at a STOP equals the same assignment written in place of the STOP.",
+   text="For generated programs with INPUT/STOP and reply scripts, the run interrupted by host breaks at a chosen subset of turn boundaries (all subsets for runs of <= 7 calls), with side-effect-free inspection statements executed at each breakpoint (including failing ones, a failing NEXT of an unused variable and failing user-function calls; replies include multi-line ones) and resumed with CONT, must produce the same prints, notices, consumed replies and final outcome as the uninterrupted run. A second family checks that an assignment entered at a STOP equals the same assignment written in place of the STOP.",
    note="Implementation compared with itself; inspection statements are restricted by construction (snapshot hook) to ones that cannot create arrays or advance RND; runs bounded by 400 calls.",
    design="4/C07"),
  "C08": dict(
    technique="model-based lockstep testing (reference interpreter vs implementation at every input request) plus a metamorphic INPUT==assignment relation, over generated programs and reply scripts",
-   text="Implementation and reference interpreter are advanced in lockstep over generated programs with INPUT in every syntactic position and replies from the documented reply grammar; at each input request the output so far, the REENTER / EXTRA IGNORED notices, the await-input state and finally the outcome and scalar values must agree. Independently of the model, replacing each once-executed INPUT by an assignment of the accepted item must not change output, outcome or final scalars.",
+   text="Implementation and reference interpreter are advanced in lockstep over generated programs with INPUT in every syntactic position and replies from the documented reply grammar; (one case in three after an INPUT exchange at the prompt was abandoned, rejected-then-abandoned or answered, or after the program itself was run to its first request and broken off) at each input request the output so far, the REENTER / EXTRA IGNORED notices, the await-input state and finally the outcome and scalar values must agree. Independently of the model, replacing each once-executed INPUT by an assignment of the accepted item must not change output, outcome or final scalars.",
    note="Trusts model.rs (incl. its 40-line reply parser) for the lockstep family; the metamorphic family compares the implementation with itself.",
    design="4/C08"),
  "C09": dict(
@@ -41,7 +41,7 @@ CLAIMED = {
    design="4/C09"),
  "C10": dict(
    technique="metamorphic / differential stateful testing: generated session histories before RUN, used interpreter vs fresh interpreter with the same program, seed and flags",
-   text="After a generated history (earlier runs left completed / failed / broken / awaiting input / replied-to-then-broken, immediate assignments, DIMs, open loops, GOSUBs into the program, partial READs, function calls, TRACE toggles, failing lines) the final RUN must produce the identical event sequence, outcome, state snapshot and variable/cell probes as a fresh interpreter holding the same lines.",
+   text="After a generated history (earlier runs left completed / failed / broken / awaiting input / replied-to-then-broken, immediate assignments, DIMs, open loops, GOSUBs into the program, partial READs, function calls, TRACE toggles, failing lines, edits, multi-line replies; one case in twelve with no program at all) the final RUN must produce the identical event sequence, outcome, state snapshot, control-probe behaviour (CONT / RETURN / NEXT / READ typed afterwards) and variable/cell probes as a fresh interpreter holding the same lines.",
    note="Both sides are seeded alike before the final RUN; bounded by 600 calls.",
    design="4/C10"),
  "C11": dict(
@@ -51,7 +51,7 @@ CLAIMED = {
    design="4/C11"),
  "C16": dict(
    technique="invariant checking over generated sessions (snapshot hook after every host call) plus an exhaustive list of cap-boundary scripts with exact expectations; libFuzzer target (sessions decoded from bytes, invariants in-target) in the thorough tier",
-   text="After every host call of generated sessions (ill-typed writes through every path, C01's structured and hostile sessions) the snapshot must show <= 32 frames, <= 32 open loops over distinct variables, arrays whose cell count equals the product of their dimensions and is <= 10000, and name-suffix typing of every scalar, array and parameter binding. Cap-boundary scripts (GOSUB depth 31/32/33, 32/33 nested FORs, re-entered and abandoned loops thousands of times, DIM products 9999/10000/10001, 4+-subscript implicit arrays) must report OUT OF MEMORY exactly beyond the cap and leave the interpreter usable.",
+   text="After every host call of generated sessions (ill-typed writes through every path, C01's structured and hostile sessions) the snapshot must show <= 32 frames, <= 32 open loops over distinct variables, arrays whose cell count equals the product of their dimensions and is <= 10000, and name-suffix typing of every scalar, array and parameter binding. Sessions of FOR / NEXT / GOSUB typed one statement per turn are included. Cap-boundary scripts (GOSUB depth 31/32/33, 32/33 nested FORs, re-entered and abandoned loops thousands of times, DIM products 9999/10000/10001, 4+-subscript implicit arrays, ill-typed FORs and undefined jumps executed at the caps) must report OUT OF MEMORY exactly beyond the cap and leave the interpreter usable.",
    note="Observation through the read-only snapshot hook.",
    design="4/C16"),
  "C17": dict(
@@ -61,7 +61,7 @@ CLAIMED = {
    design="4/C17"),
  "C01": dict(
    technique="stateful property testing / fuzzing: generated host-call histories (proptest, shrinking) through a protocol-respecting driver with crash, idle-after-error, caret-rendering and liveness oracles; child-process battery for native-stack exhaustion; libFuzzer target in the thorough tier",
-   text="Generated sessions (structured programs + command scripts, hostile boundary lines, raw Unicode) are driven through the real Interpreter under the turn-taking protocol; every call must return (catch_unwind), every Err must leave the interpreter Idle with a renderable error, breaks and replies must produce the documented states, and a final PRINT 7 must work. Boundary numerals (line 2^64-1, subscripts near 2^32/2^63, 19-40 subscripts, seeds >= 2^44) are enumerated exhaustively in fixed scripts; 16 nesting / token-run constructs (parentheses, calls, subscripts, IF chains, chains of 31 DEFs, runs of unary operators / separators) up to 300000 levels deep are run in child processes on a 1 MiB stack for both the interpreter and the analyzer.",
+   text="Generated sessions (structured programs + command scripts, hostile boundary lines, statements of neighbouring BASIC dialects that are refused today, raw Unicode) are driven through the real Interpreter under the turn-taking protocol; every call must return (catch_unwind), every Err must leave the interpreter Idle with a renderable error (a tokenization error shows exactly the submitted line; an error raised while the cursor stood on program line n names n, the line after it, or a DATA / DEF line; an error pointing into a statement line just typed renders that line; carets sit on token starts), breaks and replies must produce the documented states, and a final PRINT 7 must work. Boundary numerals (line 2^64-1, subscripts near 2^32/2^63, 19-40 subscripts, seeds >= 2^44) are enumerated exhaustively in fixed scripts; 16 nesting / token-run constructs (parentheses, calls, subscripts, IF chains, chains of 31 DEFs, runs of unary operators / separators) up to 300000 levels deep are run in child processes on a 1 MiB stack for both the interpreter and the analyzer.",
    note="Panics are observed with catch_unwind in an overflow-checked optimised build; stack exhaustion is decided for the optimised harness build on a 1 MiB main-thread stack (the WASM default; roughly a debug build on 8 MiB) by exit status of child processes; hangs are watchdog exits (2), never violations.",
    design="4/C01"),
  "C05": dict(
@@ -71,22 +71,22 @@ CLAIMED = {
    design="4/C05"),
  "C04": dict(
    technique="stateful property testing: generated edit histories (proptest vec of ops + interpreter of ops) against a BTreeMap reference model; differential against a fresh interpreter; libFuzzer target (histories decoded from bytes, map oracle in-target) in the thorough tier",
-   text="Generated histories of add / replace / delete / failed-edit / LIST / RUN operations over colliding and extreme line numbers (0, leading zeros, 2^63, 2^64-1, 20+-digit pseudo numbers). With serial PRINT payloads the oracle is a BTreeMap and is independent of the tokenizer; with arbitrary statements the used interpreter must LIST and RUN exactly like a fresh one holding the surviving lines. Sampling of the history space; collisions are forced by a small number pool.",
+   text="Generated histories of add / replace / delete / failed-edit / LIST / RUN operations over colliding and extreme line numbers (0, leading zeros, 2^63, 2^64-1, 20+-digit pseudo numbers). With serial payloads (PRINT k, one in four REM k, one in twelve STOP so that later edits arrive while the program is suspended) the oracle is a BTreeMap and is independent of the tokenizer; with arbitrary statements the used interpreter must LIST and RUN exactly like a fresh one holding the surviving lines. Sampling of the history space; collisions are forced by a small number pool.",
    note="Trusts the 20-line map model in c04.rs; RUN comparisons run under a 2000-turn budget with both sides seeded alike.",
    design="4/C04"),
  "C12": dict(
    technique="metamorphic property testing: lines built from construction-tagged segments, exhaustive and random whitespace/case perturbations, token sequences compared through the tokenizer hook and through LIST; libFuzzer target (tagged segments decoded from bytes) in the thorough tier",
-   text="Base lines are assembled from free / protected / DATA-item segments tagged by the generator (never by the tokenizer); free text includes identifiers over every letter and tight digit-letter-sign-digit runs (2E3, 5e-3). Every base is perturbed: all blanks removed, blank/tab/three blanks in every gap, every single gap, all 2^k gap subsets for k <= 8, all-lower/all-upper, every single letter flip, random flips; each variant must tokenize to the identical token sequence (or identical error kind) and LIST identically. Exhaustive per base line inside those bounds; base lines are sampled.",
+   text="Base lines are assembled from free / protected / DATA-item segments tagged by the generator (never by the tokenizer); free text includes identifiers over every letter, tight digit-letter-sign-digit runs (2E3, 5e-3) and proper prefixes / suffixes of keywords glued to keywords (NOTHEN, xTOgoto). Every base is perturbed: all blanks removed, blank/tab/three blanks in every gap, every single gap, all 2^k gap subsets for k <= 8, all-lower/all-upper, every single letter flip, random flips; each variant must tokenize to the identical token sequence (or identical error kind) and LIST identically. Exhaustive per base line inside those bounds; base lines are sampled.",
    note="Trusts the segment construction (protected map) and the exclusion of lines whose free text accidentally spells REM/DATA; the hook tokenize_with_ranges wraps the real Tokenizer.",
    design="4/C12"),
  "C13": dict(
    technique="exhaustive enumeration of atom strings + random/raw text (proptest) against a validity predicate with a re-tokenization round trip per token; libFuzzer target in the thorough tier",
-   text="All strings of up to 4 (quick) / 5 (thorough) atoms from a 40-atom alphabet covering every token class, blanks, tabs, multi-byte and illegal characters are enumerated; random atom strings to length 40, token-dense lines of tagged segments (identifiers over every letter, digit-letter-sign-digit runs), every line of the repo's programs and test sources, and raw Unicode text are added. For each line the reported ranges must be in bounds, on char boundaries, ordered, disjoint, separated only by blanks, blank-free at both ends (REM/DATA to their text end), and re-tokenizing each range's text must give exactly that token; for failing lines the error start must be in the line and the prefix must tokenize to the tokens reported before the error.",
+   text="All strings of up to 4 (quick) / 5 (thorough) atoms from a 40-atom alphabet covering every token class, blanks, tabs, multi-byte and illegal characters are enumerated; random atom strings to length 40, token-dense lines of tagged segments (identifiers over every letter, digit-letter-sign-digit runs), every line of the repo's programs and test sources, and raw Unicode text are added; files of 2-7 numbered lines sharing statement texts under line numbers of different width are analyzed and the analyzer's per-line ranges must equal the tokenizer's. For each line the reported ranges must be in bounds, on char boundaries, ordered, disjoint, separated only by blanks, blank-free at both ends (REM/DATA to their text end), and re-tokenizing each range's text must give exactly that token; for failing lines the error start must be in the line and the prefix must tokenize to the tokens reported before the error.",
    note="Trusts the 100-line predicate in c13.rs and the hook tokenize_with_ranges (iterates the real Tokenizer).",
    design="4/C13"),
  "C14": dict(
    technique="round-trip property testing (LIST -> reload -> LIST fixed point, differential RUN and READ sequence), exhaustive over token-class pairs/triples, random over numerals / DATA / text / programs; libFuzzer target in the thorough tier",
-   text="For stored programs built from every ordered pair (thorough: triple) of token-class representatives, numerals in many spellings and contexts, DATA statements with all item kinds and odd spacing, REM/string text with arbitrary Unicode, random atom lines, token-dense segment lines, grammar-generated programs and the repo's sample programs: LIST must be a fixed point under reloading into a fresh interpreter, every listed line must be accepted, RUN of both must give identical output records and outcome, and RESTORE+READ must yield the identical DATA item sequence.",
+   text="For stored programs built from every ordered pair (thorough: triple) of token-class representatives, numerals in many spellings and contexts, DATA statements with all item kinds, odd spacing and non-ASCII blanks around items, programs reached through edits with a READ typed in between, REM/string text with arbitrary Unicode, random atom lines, token-dense segment lines, grammar-generated programs and the repo's sample programs: LIST must be a fixed point under reloading into a fresh interpreter, every listed line must be accepted, RUN of both must give identical output records and outcome, and RESTORE+READ must yield the identical DATA item sequence.",
    note="Behavioural equality is decided under a 3000-turn budget with equal seeds and a fixed reply to INPUT.",
    design="4/C14"),
  "C03": dict(
@@ -101,7 +101,7 @@ CLAIMED = {
    design="4/C02"),
  "C18": dict(
    technique="exhaustive enumeration of generator states + property-based scripts vs independent u128 model (proptest), differential across two interpreters and the Web adapter",
-   text="Every one of the 2^33 generator states is stepped through the real Rng (hook rng_step) and compared bit-for-bit with an independent u128 model in the thorough tier (every 128th state plus all power-of-two neighbours in the quick tier); seeds beyond 2^33 and RND call scripts (positive / zero / negative arguments, inside expressions, nested as RND(RND(x)) and through a user function that itself calls RND, programs and FOR loops) are generated and compared with the model on two core interpreters and the Web adapter. The state space part is complete; seeds >= 2^33 and call interleavings are sampled.",
+   text="Every one of the 2^33 generator states is stepped through the real Rng (hook rng_step) and compared bit-for-bit with an independent u128 model in the thorough tier (every 128th state plus all power-of-two neighbours in the quick tier); seeds beyond 2^33 and RND call scripts (positive / zero / negative arguments, inside expressions, nested as RND(RND(x)) and through a user function that itself calls RND, in the subscript of an INPUT target, in the condition of an IF whose clause is an INPUT, programs and FOR loops) are generated and compared with the model on two core interpreters and the Web adapter. The state space part is complete; seeds >= 2^33 and call interleavings are sampled.",
    note="Trusts the 15-line u128 model of the documented LCG and Rust's f64 Display; the hook rng_step constructs Rng::new(state) and steps it once.",
    design="4/C18"),
 }
